@@ -10,10 +10,11 @@ NA_REASONS = {}
 if os.path.exists("tools/not_applicable.json"):
     NA_REASONS = json.load(open("tools/not_applicable.json"))
 engines = {}
+CLAIMED = set(open("tools/claimed.txt").read().split()) if os.path.exists("tools/claimed.txt") else None
 for p in props:
     pid = p["id"]
     path = f"checks/{pid.lower()}.py"
-    if not os.path.exists(path):
+    if not os.path.exists(path) or (CLAIMED is not None and pid not in CLAIMED):
         na.append({"property_id": pid, "reason": NA_REASONS.get(pid, "check not built yet in this session (planned in DESIGN.md §3); not claimed")})
         continue
     m = importlib.import_module(f"checks.{pid.lower()}")
